@@ -2,19 +2,10 @@
    edges_plaquettes (an edge's [forward, backward] plaquette), plaquette_neighbours,
    vertices_plaquettes (first-INVALID-slot filling). *)
 From Coq Require Import List ZArith Bool Arith Lia ZifyBool Permutation Sorted.
-From Koala Require Import Model.Lattice.
+From Koala Require Import Model.Lattice Model.TableSpec.
 Import ListNotations.
 
 (* ---------- darts of a plaquette list ---------- *)
-Definition plaq_darts (p : plaquette) : list dart := combine (p_edges p) (p_dirs p).
-Definition all_plaq_darts (ps : list plaquette) : list dart := flat_map plaq_darts ps.
-Fixpoint dart_nodupb (l : list dart) : bool :=
-  match l with
-  | [] => true
-  | d :: r => negb (existsb (dart_eqb d) r) && dart_nodupb r
-  end.
-(* "no directed edge lies in two plaquettes (nor twice in one)": C01's sweep_partition, as a boolean *)
-Definition darts_disjoint (ps : list plaquette) : bool := dart_nodupb (all_plaq_darts ps).
 (* plaquette n contains dart d *)
 Definition owner (ps : list plaquette) (d : dart) (n : nat) : Prop :=
   exists p, nth_error ps n = Some p /\ In d (plaq_darts p).
@@ -548,4 +539,236 @@ Proof.
     + intros n. rewrite B1, vrow_in_some, holders_in. split.
       * intros (i & p & -> & Hp & Hin). exists p. auto.
       * intros (p & Hp & Hin). exists n, p. auto.
+Qed.
+
+(* ---------- the first-INVALID-slot search never fails ---------- *)
+Lemma list_nat_eqb_eq : forall a b, list_nat_eqb a b = true -> a = b.
+Proof.
+  induction a as [|x a IH]; intros [|y b] H; simpl in H; try discriminate. reflexivity.
+  apply andb_true_iff in H. destruct H as [H1 H2]. apply Nat.eqb_eq in H1. subst. f_equal. auto.
+Qed.
+
+Section VPT.
+Variable mc : nat.
+
+Lemma vp_inner_total : forall vs n t (hs : nat -> list nat),
+  NoDup vs ->
+  (forall v, (v < length t)%nat -> nth v t [] = vrow mc (hs v)) ->
+  (forall v, In v vs -> (v < length t)%nat /\ (length (hs v) < mc)%nat) ->
+  exists t', fold_left (vp_write n) vs (Some t) = Some t'.
+Proof.
+  induction vs as [|a r IH]; intros n t hs Hnd Hrows Hb; simpl. eauto.
+  inversion Hnd as [|? ? Ha Hr]; subst.
+  destruct (Hb a (or_introl eq_refl)) as [Hlt Hc].
+  rewrite (Hrows a Hlt), sfi_vrow_some by assumption.
+  apply IH with (hs := fun v => if (v =? a)%nat then hs a ++ [n] else hs v).
+  - assumption.
+  - intros v Hv. rewrite set_nth_length in Hv. destruct (Nat.eqb_spec v a) as [->|Hne].
+    + apply nth_set_nth_eq. assumption.
+    + rewrite nth_set_nth_neq by congruence. apply Hrows. assumption.
+  - intros v Hv. rewrite set_nth_length. destruct (Nat.eqb_spec v a) as [->|Hne]. contradiction.
+    apply Hb. right; assumption.
+Qed.
+
+Lemma vp_outer_total : forall ps k t (hs : nat -> list nat),
+  (forall v, (v < length t)%nat -> nth v t [] = vrow mc (hs v)) ->
+  (forall v, (v < length t)%nat -> (length (hs v ++ holders ps k v) <= mc)%nat) ->
+  (forall p v, In p ps -> In v (p_verts p) -> (v < length t)%nat) ->
+  exists t', fst (fold_left vp_step ps (Some t, k)) = Some t'.
+Proof.
+  induction ps as [|p r IH]; intros k t hs Hrows Hb Hin; simpl. eauto.
+  unfold vp_step at 2. simpl.
+  destruct (vp_inner_total (dedup (p_verts p)) k t hs (dedup_nodup _) Hrows) as [t1 E1].
+  { intros v Hv. apply (proj1 (dedup_in _ _)) in Hv. assert (Hlt : (v < length t)%nat) by (apply (Hin p v (or_introl eq_refl) Hv)).
+    split. assumption. specialize (Hb v Hlt). simpl in Hb. apply memb_in in Hv. rewrite Hv in Hb.
+    rewrite !app_length in Hb. simpl in Hb. lia. }
+  rewrite E1.
+  destruct (vp_inner mc _ _ _ _ hs (dedup_nodup (p_verts p)) Hrows E1) as (L1 & L2 & L3).
+  apply IH with (hs := fun v => hs v ++ (if memb v (p_verts p) then [k] else [])).
+  - intros v Hv. rewrite L1 in Hv. rewrite L3 by assumption. rewrite memb_dedup. reflexivity.
+  - intros v Hv. rewrite L1 in Hv. specialize (Hb v Hv). simpl in Hb. rewrite <- app_assoc. exact Hb.
+  - intros q v Hq Hv. rewrite L1. eapply Hin; [right; exact Hq|exact Hv].
+Qed.
+End VPT.
+
+(* counting: the plaquettes containing v inject into the darts leaving v *)
+Definition tails (L : lattice) (v : nat) (ds : list dart) : list dart :=
+  filter (fun d => dtail L d =? v)%nat ds.
+
+Lemma in_map_filter_length : forall A (f : A -> nat) v l,
+  In v (map f l) -> (1 <= length (filter (fun x => f x =? v)%nat l))%nat.
+Proof.
+  intros A f v l. induction l as [|a l IH]; simpl. intros [].
+  intros [E|H].
+  - subst v. rewrite Nat.eqb_refl. simpl. lia.
+  - destruct (f a =? v)%nat; simpl; [lia|auto].
+Qed.
+
+Lemma holders_le_tails : forall L ps k v,
+  (forall p, In p ps -> p_verts p = map (dtail L) (plaq_darts p)) ->
+  (length (holders ps k v) <= length (tails L v (all_plaq_darts ps)))%nat.
+Proof.
+  intros L ps. induction ps as [|p r IH]; intros k v H; simpl. lia.
+  unfold tails in *. rewrite filter_app, !app_length.
+  specialize (IH (S k) v (fun q Hq => H q (or_intror Hq))).
+  destruct (memb v (p_verts p)) eqn:E; simpl; [|lia].
+  apply memb_in in E. rewrite (H p (or_introl eq_refl)) in E.
+  apply in_map_filter_length in E. lia.
+Qed.
+
+Lemma in_all_darts : forall L e b, (e < nE L)%nat -> In (e, b) (all_darts L).
+Proof.
+  intros L e b H. unfold all_darts. apply in_flat_map. exists e. split. apply in_seq; lia.
+  destruct b; simpl; auto.
+Qed.
+
+Lemma tails_le_all : forall L v ds,
+  NoDup ds -> (forall d, In d ds -> (fst d < nE L)%nat) ->
+  (length (tails L v ds) <= length (tails L v (all_darts L)))%nat.
+Proof.
+  intros L v ds Hnd Hr. unfold tails. apply NoDup_incl_length. apply NoDup_filter; assumption.
+  intros d Hd. apply filter_In in Hd. destruct Hd as [Hd Ht]. apply filter_In. split; [|assumption].
+  destruct d as [e b]. apply in_all_darts. apply (Hr _ Hd).
+Qed.
+
+Lemma map_nth_seq : forall A (l : list A) d, map (fun i => nth i l d) (seq 0 (length l)) = l.
+Proof.
+  intros A l d. induction l as [|a l IH]; simpl. reflexivity.
+  f_equal. rewrite <- seq_shift, map_map. exact IH.
+Qed.
+
+Definition ends_g (v : nat) (ed : nat * nat) : nat :=
+  ((if (fst ed =? v)%nat then 1 else 0) + (if (snd ed =? v)%nat then 1 else 0))%nat.
+
+Lemma tails_all_count : forall L v, length (tails L v (all_darts L)) = count_ends L v.
+Proof.
+  intros L v.
+  assert (A : length (tails L v (all_darts L)) = list_sum (map (fun e => ends_g v (edge_at L e)) (seq 0 (nE L)))).
+  { unfold tails, all_darts. induction (seq 0 (nE L)) as [|e r IH]. reflexivity.
+    cbn [flat_map app filter map list_sum].
+    assert (E1 : (dtail L (e, true) =? v)%nat = (fst (edge_at L e) =? v)%nat)
+      by (unfold dtail; simpl; destruct (edge_at L e); reflexivity).
+    assert (E2 : (dtail L (e, false) =? v)%nat = (snd (edge_at L e) =? v)%nat)
+      by (unfold dtail; simpl; destruct (edge_at L e); reflexivity).
+    rewrite E1, E2. unfold ends_g at 1.
+    destruct (fst (edge_at L e) =? v)%nat, (snd (edge_at L e) =? v)%nat; cbn [length]; rewrite IH; reflexivity. }
+  rewrite A. rewrite <- (map_map (edge_at L) (ends_g v)). unfold edge_at, nE. rewrite map_nth_seq.
+  unfold count_ends. induction (edges L) as [|e r IH]; simpl. reflexivity.
+  rewrite IH. unfold ends_g. lia.
+Qed.
+
+Lemma le_fold_max : forall x l, In x l -> (x <= fold_right Nat.max 0 l)%nat.
+Proof. intros x l. induction l as [|a l IH]; simpl. intros []. intros [->|H]. lia. specialize (IH H). lia. Qed.
+
+Lemma count_ends_pos_in : forall L v, (0 < count_ends L v)%nat ->
+  exists e, In e (edges L) /\ (fst e = v \/ snd e = v).
+Proof.
+  intros L v. unfold count_ends. induction (edges L) as [|e r IH]; simpl. lia.
+  intros H. destruct (Nat.eqb_spec (fst e) v) as [E1|E1]. exists e; auto.
+  destruct (Nat.eqb_spec (snd e) v) as [E2|E2]. exists e; auto.
+  destruct IH as [x [Hx Hv]]. simpl in H; lia. exists x. auto.
+Qed.
+
+Lemma count_ends_le_max_coord : forall L v, (count_ends L v <= max_coord L)%nat.
+Proof.
+  intros L v. destruct (Nat.eq_dec (count_ends L v) 0) as [E|E]. lia.
+  destruct (count_ends_pos_in L v) as [e [He Hv]]. lia.
+  unfold max_coord, coordination_bincount, max_index.
+  destruct (edges L) as [|e0 r] eqn:Eed. contradiction.
+  rewrite <- Eed in *. apply le_fold_max. apply in_map. apply in_seq. split. lia. simpl.
+  assert (G : forall l, In e l -> (Nat.max (fst e) (snd e) <= fold_right (fun e acc => Nat.max (Nat.max (fst e) (snd e)) acc) 0 l)%nat).
+  { induction l as [|a l IH]; simpl. intros []. intros [->|H]. lia. specialize (IH H). lia. }
+  specialize (G _ He). lia.
+Qed.
+
+Lemma dtail_lt : forall L e b, wf_lattice L = true -> (e < nE L)%nat -> (dtail L (e, b) < nV L)%nat.
+Proof.
+  intros L e b Hwf He. unfold wf_lattice in Hwf. apply andb_true_iff in Hwf. destruct Hwf as [_ Hwf].
+  rewrite forallb_forall in Hwf. specialize (Hwf (edge_at L e)).
+  assert (Hin : In (edge_at L e) (edges L)) by (apply nth_In; exact He).
+  apply Hwf in Hin. unfold wf_edge in Hin. unfold dtail. simpl. destruct (edge_at L e) as [j k]. simpl in Hin.
+  destruct b; lia.
+Qed.
+
+Lemma plaq_walk_ok_spec : forall L p, plaq_walk_ok L p = true ->
+  length (p_dirs p) = length (p_edges p) /\
+  (forall e, In e (p_edges p) -> (e < nE L)%nat) /\
+  p_verts p = map (dtail L) (plaq_darts p).
+Proof.
+  intros L p H. unfold plaq_walk_ok in H. rewrite !andb_true_iff in H. destruct H as [[H1 H2] H3].
+  split. apply Nat.eqb_eq; assumption. split.
+  - intros e He. rewrite forallb_forall in H2. apply H2 in He. lia.
+  - apply list_nat_eqb_eq. assumption.
+Qed.
+
+(* with C01's guarantees about the plaquette list (no dart in two plaquettes, walks are closed walks
+   of the lattice) the table is always produced: #plaquettes at v <= #darts leaving v = deg v <= max_coord *)
+Lemma vertex_plaquettes_total_lemma : forall L ps,
+  wf_lattice L = true ->
+  darts_disjoint ps = true ->
+  forallb (plaq_walk_ok L) ps = true ->
+  (forall v, (length (holders ps 0 v) <= count_ends L v)%nat) /\
+  exists t, vertices_plaquettes L ps = Some t.
+Proof.
+  intros L ps Hwf Hd Hok. apply dart_nodupb_spec in Hd. rewrite forallb_forall in Hok.
+  assert (Hcount : forall v, (length (holders ps 0 v) <= count_ends L v)%nat).
+  { intros v. rewrite <- tails_all_count.
+    etransitivity. apply (holders_le_tails L).
+    - intros p Hp. apply (plaq_walk_ok_spec L p (Hok p Hp)).
+    - apply tails_le_all. assumption.
+      intros [e b] Hin. apply in_flat_map in Hin. destruct Hin as [p [Hp Hin]].
+      apply in_combine_l in Hin. simpl. apply (plaq_walk_ok_spec L p (Hok p Hp)). assumption. }
+  split. exact Hcount.
+  unfold vertices_plaquettes.
+  change (fun (st : option (list (list (option nat))) * nat) (p : plaquette) =>
+            (fold_left (vp_write (snd st)) (dedup (p_verts p)) (fst st), S (snd st))) with vp_step.
+  apply (vp_outer_total (max_coord L)) with (hs := fun _ => []).
+  - intros v Hv. rewrite repeat_length in Hv. rewrite nth_repeat_lt by assumption.
+    unfold vrow. simpl. rewrite Nat.sub_0_r. reflexivity.
+  - intros v _. simpl. etransitivity. apply Hcount. apply count_ends_le_max_coord.
+  - intros p v Hp Hv. rewrite repeat_length.
+    destruct (plaq_walk_ok_spec L p (Hok p Hp)) as (_ & Hr & Hvs). rewrite Hvs in Hv.
+    apply in_map_iff in Hv. destruct Hv as [[e b] [<- Hin]]. apply dtail_lt. assumption.
+    apply Hr. apply in_combine_l in Hin. assumption.
+Qed.
+
+(* ---------- the statements used by Props/C02.v, under the single boolean hypothesis ---------- *)
+Lemma plaq_list_ok_spec : forall L ps, plaq_list_ok L ps = true ->
+  darts_disjoint ps = true /\ forallb (plaq_walk_ok L) ps = true /\
+  forall p, In p ps -> plaq_walk_ok L p = true /\ nodupb (p_edges p) = true.
+Proof.
+  intros L ps H. unfold plaq_list_ok in H. apply andb_true_iff in H. destruct H as [H1 H2].
+  rewrite forallb_forall in H2. split. assumption. split.
+  - apply forallb_forall. intros p Hp. apply H2 in Hp. apply andb_true_iff in Hp. tauto.
+  - intros p Hp. apply H2 in Hp. apply andb_true_iff in Hp. tauto.
+Qed.
+
+(* plaquette n's adjacent_plaquettes: entry i is the plaquette traversing edge i in the opposite
+   direction, INVALID exactly when there is none *)
+Lemma plaquette_neighbours_across_lemma : forall L ps n p,
+  plaq_list_ok L ps = true ->
+  nth_error ps n = Some p ->
+  exists nbs,
+    nth_error (all_plaquette_neighbours L ps) n = Some nbs /\
+    length nbs = length (p_edges p) /\
+    forall i e d, nth_error (plaq_darts p) i = Some (e, d) ->
+      exists x, nth_error nbs i = Some x /\
+        x = ep_col (nth e (edges_plaquettes L ps) (None, None)) (negb d) /\
+        (forall m, x = Some m <-> owner ps (e, negb d) m) /\
+        (x = None <-> forall m, ~ owner ps (e, negb d) m).
+Proof.
+  intros L ps n p Hok Hn. destruct (plaq_list_ok_spec L ps Hok) as (Hd & _ & Hall).
+  destruct (Hall p (nth_error_In _ _ Hn)) as [Hw Hnd].
+  destruct (plaq_walk_ok_spec L p Hw) as (Hlen & Hr & _).
+  assert (Hwf : forallb (fun e => e <? nE L)%nat (p_edges p) = true).
+  { apply forallb_forall. intros e He. apply Hr in He. lia. }
+  destruct (plaquette_neighbours_lemma L ps n p Hd Hn Hnd Hlen Hwf) as [Hnb Hl].
+  exists (plaquette_neighbours (edges_plaquettes L ps) n p).
+  split. apply all_plaquette_neighbours_nth; assumption. split. exact Hl.
+  intros i e d Hi. rewrite Hnb.
+  exists (ep_col (nth e (edges_plaquettes L ps) (None, None)) (negb d)).
+  split. rewrite nth_error_map, Hi. reflexivity. split. reflexivity.
+  assert (He : (e < nE L)%nat).
+  { apply nth_error_In in Hi. apply in_combine_l in Hi. apply Hr. assumption. }
+  destruct (edge_sides_lemma L ps Hd) as [_ Hes]. apply (Hes e (negb d) He).
 Qed.
